@@ -29,7 +29,7 @@
 (*   cmap4seg cmap/format4.go:72-90     idRangeOffset into glyphIdArray    *)
 (*   cmap12   cmap/format12.go:43-75    segment checks and the size cap    *)
 (*   index    cff/index.go:40-88        CFF INDEX offsets                  *)
-(*   cffpriv  cff/dict.go:528-545       Private DICT (size, offset)        *)
+(*   cffpriv  cff/dict.go:541-553       Private DICT (size, offset)        *)
 (*   loca     glyf/loca.go:25-49, glyf.go:118, composite.go:110            *)
 (*   simple   glyf/simple.go:47-160, 169-230  simple glyph decode          *)
 (*   cover    coverage.go:108-136, set.go:75-104  coverage format 2        *)
@@ -37,6 +37,8 @@
 (*   gpos5    gtab/gpos5.go:72-120      mark-to-ligature arrays            *)
 (*   t2store  cff/t2decode.go:557-581   put/get into the transient array   *)
 (*   t2stack  cff/t2decode.go:525-549   index / roll on the operand stack  *)
+(*   sum32    a + b > limit guards formed in 32-bit arithmetic (overflow)   *)
+(*   fixedtab counts / indices against tables of fixed size in the decoder *)
 (*   sum      aggregate limits: k records, each within its own limit       *)
 (*            (cmap 12 groups, coverage ranges, name records, kern         *)
 (*            subtables), whose total must stay within the table's limit   *)
@@ -151,10 +153,51 @@ IdxTrouble(r) == IdxAccept(r) /\
     /\ SliceOK(r.a0 - 1, r.a1 - 1, r.a2 - 1) /\ SliceOK(r.a1 - 1, r.a2 - 1, r.a2 - 1))
 
 (* cffpriv: the (size, offset) operands of the Private entry are int32;    *)
-(* model as 4-bit signed.  S = file size.                                  *)
+(* model as 4-bit signed.  S = file size.  The reader checks               *)
+(* int64(offs) + int64(size) > Size (no wrap) before make([]byte, size).   *)
 PrivDom == [size : -8..7, offs : -8..7, S : 0..7]
-PrivAccept(r) == ~(r.offs < 1 \/ r.size < 0)                 \* dict.go:533 (4 scaled to 1)
+PrivAccept(r) == ~(r.offs < 1 \/ r.size < 0) /\ ~(r.offs + r.size > r.S)   \* dict.go:542-547 (4 scaled to 1)
 PrivTrouble(r) == PrivAccept(r) /\ r.size > r.S              \* make([]byte, pdSize) before any read
+
+(* sum32: the overflow pattern of every guard of the form a + b > limit    *)
+(* whose operands are 32-bit values taken from the file.  SW4 is int32     *)
+(* addition at 4 bits (wraps from 7 to -8).  Accept is the guard as it     *)
+(* would behave if the sum were formed in the NARROW type; Trouble is what *)
+(* the format forbids.  The holes of this model are therefore exactly the  *)
+(* inputs on which an implementation with narrow arithmetic differs from   *)
+(* one with wide arithmetic: both operands valid on their own, their sum   *)
+(* beyond the top of the word range.  They are replayed on the real        *)
+(* decoder (operands scaled by 2^28, 7 -> 2^31-1, so that model sums wrap  *)
+(* exactly when the real int32 sums do); the real code must survive them.  *)
+(*   priv : Private (size, offset) against the file size, allocation size  *)
+(*   subrs: offset of the Private DICT + Subrs offset, used as a position  *)
+SW4(v) == ((v + 8) % 16) - 8
+Sum32Dom == [kind : {"priv", "subrs"}, a : -8..7, b : -8..7, S : {0, 3, 7}]
+Sum32Accept(r) ==
+  IF r.kind = "priv" THEN ~(r.a < 1 \/ r.b < 0) /\ ~(SW4(r.a + r.b) > r.S)    \* a = offset, b = size
+  ELSE r.a >= 1 /\ r.b > 0 /\ ~(SW4(r.a + r.b) < 1)                          \* a = Private offset, b = Subrs
+Sum32Trouble(r) ==
+  Sum32Accept(r) /\ (IF r.kind = "priv" THEN r.b > r.S ELSE r.a + r.b # SW4(r.a + r.b))
+
+(* fixedtab: a count or index taken from the file is used to index a table *)
+(* of FIXED size that is compiled into the decoder.  n sweeps the boundary *)
+(* of each table (one below, at, one above).                               *)
+(*   charset0/1/2: predefined ISOAdobe / Expert / ExpertSubset charset of  *)
+(*            229 / 166 / 87 names, indexed by glyph number (read.go:225)  *)
+(*   enc0/1 : predefined encodings, glyph counts around 256                *)
+(*   sid    : 391 standard strings; a SID beyond them needs a custom string*)
+(*   stack  : 48 operands on the charstring stack (t2decode.go:116)        *)
+(*   postmac: 258 Macintosh glyph names of a format 2 "post" table         *)
+FixLen(t) == CASE t = "charset0" -> 229 [] t = "charset1" -> 166 [] t = "charset2" -> 87
+               [] t = "enc0" -> 256 [] t = "enc1" -> 256 [] t = "sid" -> 391 [] t = "stack" -> 48 [] t = "postmac" -> 258
+FixDom == [tab : {"charset0", "charset1", "charset2", "enc0", "enc1", "sid", "stack", "postmac"}, d : -2..2,
+           enc : {0, 1}]
+FixN(r) == FixLen(r.tab) + r.d
+\* counts (charset*, enc*, stack) are accepted up to the table length; indices (sid, postmac) below it
+FixAccept(r) == IF r.tab \in {"sid", "postmac"} THEN FixN(r) < FixLen(r.tab)
+                ELSE IF r.tab \in {"enc0", "enc1"} THEN TRUE ELSE FixN(r) <= FixLen(r.tab)
+FixTrouble(r) == FixAccept(r) /\ r.tab \notin {"enc0", "enc1"} /\
+                 ~InB({IF r.tab \in {"sid", "postmac"} THEN FixN(r) ELSE FixN(r) - 1}, FixLen(r.tab))
 
 ---------------------------------------------------------------------------
 (* loca (short format): three entries x0,x1,x2 (pos = 2x), glyf length G.  *)
@@ -240,21 +283,24 @@ SumTrouble(r) == IF r.kind \in {"cmap12", "cover"} THEN SumDone(r) * r.pct > 100
 
 ---------------------------------------------------------------------------
 Names == {"dir", "cmap", "cmap4", "cmap4seg", "cmap12", "index", "cffpriv", "loca", "simple", "cover", "classdef", "gpos5",
-          "t2store", "t2stack", "sum"}
+          "t2store", "t2stack", "sum", "sum32", "fixedtab"}
 Dom(n) == CASE n = "dir" -> DirDom [] n = "cmap" -> CmapDom [] n = "cmap4" -> C4Dom [] n = "cmap4seg" -> C4SDom
             [] n = "cmap12" -> C12Dom [] n = "index" -> IdxDom [] n = "cffpriv" -> PrivDom [] n = "loca" -> LocaDom
             [] n = "simple" -> SimDom [] n = "cover" -> CovDom [] n = "classdef" -> ClsDom [] n = "gpos5" -> G5Dom
             [] n = "t2store" -> T2SDom [] n = "t2stack" -> T2KDom [] n = "sum" -> SumDom
+            [] n = "sum32" -> Sum32Dom [] n = "fixedtab" -> FixDom
 Accept == CASE g = "dir" -> DirAccept(x) [] g = "cmap" -> CmapAccept(x) [] g = "cmap4" -> C4Accept(x)
             [] g = "cmap4seg" -> C4SAccept(x) [] g = "cmap12" -> C12Accept(x) [] g = "index" -> IdxAccept(x)
             [] g = "cffpriv" -> PrivAccept(x) [] g = "loca" -> LocaAccept(x) [] g = "simple" -> SimAccept(x)
             [] g = "cover" -> CovAccept(x) [] g = "classdef" -> ClsAccept(x) [] g = "gpos5" -> G5Accept(x)
             [] g = "t2store" -> T2SAccept(x) [] g = "t2stack" -> T2KAccept(x) [] g = "sum" -> SumAccept(x)
+            [] g = "sum32" -> Sum32Accept(x) [] g = "fixedtab" -> FixAccept(x)
 Trouble == CASE g = "dir" -> DirTrouble(x) [] g = "cmap" -> CmapTrouble(x) [] g = "cmap4" -> C4Trouble(x)
             [] g = "cmap4seg" -> C4STrouble(x) [] g = "cmap12" -> C12Trouble(x) [] g = "index" -> IdxTrouble(x)
             [] g = "cffpriv" -> PrivTrouble(x) [] g = "loca" -> LocaTrouble(x) [] g = "simple" -> SimTrouble(x)
             [] g = "cover" -> CovTrouble(x) [] g = "classdef" -> ClsTrouble(x) [] g = "gpos5" -> G5Trouble(x)
             [] g = "t2store" -> T2STrouble(x) [] g = "t2stack" -> T2KTrouble(x) [] g = "sum" -> SumTrouble(x)
+            [] g = "sum32" -> Sum32Trouble(x) [] g = "fixedtab" -> FixTrouble(x)
 
 Init == g \in Names /\ x \in Dom(g)
 Next == UNCHANGED vars
@@ -275,7 +321,9 @@ Key == CASE g = "dir" -> x.o1 + 3 * x.l1 + 5 * x.o2 + 7 * x.l2 + x.F
          [] g = "gpos5" -> x.lig + 3 * x.mcc + 5 * x.comp
          [] OTHER -> 0
 \* small guards are replayed completely
-Sampled == Sample > 0 /\ (g \in {"simple", "gpos5", "classdef", "t2store", "t2stack", "sum"} \/ Key % Sample = 0)
+Sampled == Sample > 0 /\ (g \in {"simple", "gpos5", "classdef", "t2store", "t2stack", "sum", "fixedtab", "cffpriv"}
+                          \/ (g = "sum32" /\ (x.a \in {-8, -1, 1, 6, 7} \/ x.b \in {-8, -1, 6, 7}))
+                          \/ (g # "sum32" /\ Key % Sample = 0))
 
 \* every hole is printed; the (very many) holes of "dir" are all of one kind -- the uint32 sum
 \* offset + length wraps -- so only every 23rd is replayed and the others are just counted
@@ -287,6 +335,7 @@ Emit == IF Trouble
 
 \* The guards that TLC is expected to prove hole-free at this word size (checked as an
 \* invariant in GuardsProved.cfg; the others are known or suspected holes and are only emitted).
-Proved == {"cmap", "cmap4", "cmap4seg", "cmap12", "index", "loca", "cover", "classdef", "t2store", "t2stack", "sum"}
+Proved == {"cmap", "cmap4", "cmap4seg", "cmap12", "index", "loca", "cover", "classdef", "t2store", "t2stack", "sum",
+           "cffpriv", "fixedtab"}
 NoHole == g \in Proved => ~Trouble
 =============================================================================
